@@ -42,6 +42,25 @@ func (w *World) extraEnabled() []core.WCmd {
 			add(12, core.Cmd{A: "submit", I: in.idx, N: int64(w.failedItems[r.Intn(n)]), S: "retry", V: r.Intn(16)})
 		}
 	}
+	if p.RootsW > 0 {
+		for _, in := range w.insts {
+			if in.log == nil || in.dead || in.state != stRunning {
+				continue
+			}
+			wt := p.RootsW
+			if len(in.rootsMem) == 0 {
+				wt = 80
+			}
+			sets := [][]int{{1}, {1, 2}, {2}, {1}, {1, 2}}
+			set := sets[r.Intn(len(sets))]
+			var plan []int
+			if p.OpErrW > 0 && r.Chance(1, 3) {
+				plan = []int{1 + r.Intn(2)}
+			}
+			add(wt, core.Cmd{A: "setroots", I: in.idx, L: plan, S: fmt.Sprint(set)})
+			add(p.RootsW, core.Cmd{A: "getroots", I: in.idx})
+		}
+	}
 	if p.CacheW > 0 {
 		for _, in := range w.insts {
 			if in.state == stCrashed || in.state == stStopped || in.state == stRefused {
@@ -87,6 +106,27 @@ func (w *World) extraEnabled() []core.WCmd {
 
 func (w *World) extraExec(c core.Cmd) bool {
 	switch c.A {
+	case "setroots":
+		in := w.inst(c.I)
+		if in == nil || in.log == nil || in.dead || in.state != stRunning {
+			return false
+		}
+		var set []string
+		if strings.Contains(c.S, "1") {
+			set = append(set, "root1")
+		}
+		if strings.Contains(c.S, "2") {
+			set = append(set, "root2")
+		}
+		w.setRoots(in, set, c.L)
+		return true
+	case "getroots":
+		in := w.inst(c.I)
+		if in == nil || in.log == nil || in.dead || in.handler == nil || in.state != stRunning {
+			return false
+		}
+		w.checkGetRoots(in)
+		return true
 	case "cache-delete":
 		in := w.inst(c.I)
 		if in == nil || in.state == stRunning || in.state == stLoading {
